@@ -209,7 +209,9 @@ static void scalar_shard(long shard, void *arg) {
         u[l] = 0;
         snprintf(d, sizeof d, "%s.com", u); check_idn("scalar", d);
         snprintf(d, sizeof d, "a%s.com", u); check_idn("scalar", d);
-        MC_ADD(C_NEG, 2);
+        snprintf(d, sizeof d, "a%scom", u); check_idn("scalar", d);          /* between label characters, no other dot: a code point treated as a separator */
+        snprintf(d, sizeof d, "a%sb.com", u); check_idn("scalar", d);
+        MC_ADD(C_NEG, 4);
     }
 }
 
@@ -253,7 +255,7 @@ int main(int argc, char **argv) {
     build_families();
     if (mc_replay) return do_replay();
     if (corpus_load()) return 2;
-    { static const int PH[] = { CP_LONGIDN, CP_ALTDOT, CP_LABELLEN, CP_WHOLEDOM, CP_DEPTH, CP_EMBED };
+    { static const int PH[] = { CP_LONGIDN, CP_ALTDOT, CP_LABELLEN, CP_WHOLEDOM, CP_DEPTH, CP_EMBED, CP_SHORTLAB };
       for (unsigned i = 0; i < sizeof PH / sizeof PH[0]; i++) { L5PH = PH[i]; char nm5[80]; snprintf(nm5, sizeof nm5, "corpus: %.60s", corpus_name(L5PH)); mc_parallel(nm5, corpus_shards(L5PH), l5_shard, NULL); } }
     mc_parallel("contextual: 7 CONTEXTJ/CONTEXTO code points between every ordered pair of 34 neighbours (letters, viramas of six scripts, digits), 3 shapes", 7, contextual_shard, NULL);
     mc_parallel("scalars: every Unicode scalar value U+0080..U+10FFFF as a one-character label and after a letter, before .com", 0x110000 / 0x1000, scalar_shard, NULL);
